@@ -168,6 +168,7 @@ class World:
         self.extra_tasks = []    # harness-created tasks (flush/gather/waiters)
         self.evals = 0           # monitor evaluations (vacuity witness)
         self.injected = []       # exception objects raised by harness-owned user code on purpose
+        self.unstarted_cancelled_spawners = []   # T3: spawner tasks that were cancelled before their first step
         plog("E %s" % harness)
 
     # ------------------------------------------------------------------ lifecycle
@@ -562,7 +563,7 @@ class World:
         if "T3" not in self.open or ret_exc:
             return
         for t in pool._meta_tasks_cancelled:
-            if t.cancelled() or (not t.done() and unstarted(t)):
+            if any(t is u for u in self.unstarted_cancelled_spawners):
                 raise Excluded("T3")
 
     # ------------------------------------------------------------------ guarded pool operations
@@ -583,10 +584,17 @@ class World:
             return e
         return None
 
+    def _note_unstarted_spawners(self, pool, names):
+        for nm in names:
+            for t in pool._group_meta_tasks_running.get(nm, ()):
+                if not t.done() and unstarted(t):
+                    self.unstarted_cancelled_spawners.append(t)
+
     def do_cancel_group(self, pool, name):
         reg = pool._task_groups.get(name)
         if reg is not None:
             self.t1_guard(pool, list(reg))
+            self._note_unstarted_spawners(pool, [name])
         try:
             pool.cancel_group(name)
         except PoolException as e:
@@ -595,6 +603,7 @@ class World:
 
     def do_cancel_all(self, pool):
         self.t1_guard(pool, list(pool._tasks_running))
+        self._note_unstarted_spawners(pool, list(pool._task_groups))
         pool.cancel_all()
 
     def do_stop(self, pool, n):
